@@ -369,6 +369,9 @@ func (c *FnCtx) mapLookup(st *State, mv Val, key Val) (Val, *Term) {
 	if pt, ok := m.Elem().Underlying().(*types.Pointer); ok {
 		out.Root = pt.Elem()
 	}
+	if c.inUnfold == 0 || len(c.bound) == 0 {
+		c.wellFormed(st.reach, out, st)
+	}
 	return out, ok
 }
 
